@@ -29,7 +29,7 @@ ASSUMPTIONS = [
     'binned wavelength width = 10000 * wavenumber width / centre^2 (first-order conversion at the bin centre, as used for observations)',
     'the reload clause compares constructor-level parameters that the writers store; opacities stay registered in the caches between write and reload',
 ]
-REQUIRED = {'part:dict': 0.08, 'part:spectrum': 0.08, 'part:model': 0.08}
+REQUIRED = {'part:retrieval': 0.06, 'part:dict': 0.08, 'part:spectrum': 0.08, 'part:model': 0.08}
 # coverage-guided extra (thorough tier): pure-Python taurex modules on this property's path, instrumented by atheris
 FUZZ = {'include': ['taurex.output', 'taurex.util.output', 'taurex.util.hdf5', 'taurex.util.util', 'taurex.binning'], 'runs': 8000, 'workers': 4}
 
@@ -63,8 +63,15 @@ def _tree(depth):
 
 @st.composite
 def _case(draw):
-    part = draw(st.sampled_from(['dict', 'model', 'spectrum', 'dict', 'model']))
+    part = draw(st.sampled_from(['dict', 'model', 'spectrum', 'retrieval', 'dict', 'model']))
     c = {'part': part}
+    if part == 'retrieval':
+        from vlib.props import c09
+        r = draw(c09._case())
+        r['sampler'] = 'nestle'
+        r['refit'] = False
+        c['ret'] = r
+        return c
     if part == 'dict':
         c['tree'] = draw(_tree(draw(S.ints(0, 3))))
         return c
@@ -419,13 +426,111 @@ def _num(v):
     return float('nan') if v is None else float(v)
 
 
+def compare_obj(out, obj, h5, path):
+    """an arbitrary stored python object against what h5py reads back under the same name (the storage rules of
+    store_dictionary: dict -> group, array -> dataset, number -> scalar, str -> string, list/tuple of numbers -> array,
+    of strings -> string table, of dicts -> name0, name1, ...)"""
+    import h5py
+    if isinstance(obj, dict):
+        if not isinstance(h5, (h5py.Group, h5py.File)):
+            out.fail('solution-roundtrip@group', '%s is not a group' % path)
+            return 0
+        n = 0
+        for k, v in obj.items():
+            if isinstance(v, (list, tuple)) and len(v) > 0 and all(isinstance(x, dict) for x in v):
+                for i, sub in enumerate(v):
+                    name = '%s%d' % (k, i)
+                    if name not in h5:
+                        out.fail('solution-roundtrip@missing', '%s/%s missing' % (path, name))
+                    else:
+                        n += compare_obj(out, sub, h5[name], '%s/%s' % (path, name))
+                continue
+            if v is None:
+                continue
+            if k not in h5:
+                out.fail('solution-roundtrip@missing', '%s/%s (%s) missing; have %s' % (path, k, type(v).__name__, list(h5.keys())[:12]))
+                continue
+            n += compare_obj(out, v, h5[k], '%s/%s' % (path, k))
+        return n
+    got = h5[()]
+    if isinstance(obj, str):
+        sgot = got.decode() if isinstance(got, bytes) else got
+        if sgot != obj:
+            out.fail('solution-roundtrip@string', '%s: stored %r read %r' % (path, obj, sgot))
+        return 1
+    if isinstance(obj, (list, tuple)) and len(obj) > 0 and all(isinstance(x, str) for x in obj):
+        rd = [x.decode() if isinstance(x, bytes) else str(x) for x in np.asarray(got).ravel()]
+        if rd != list(obj):
+            out.fail('solution-roundtrip@strlist', '%s: stored %r read %r' % (path, obj, rd))
+        return 1
+    try:
+        want = np.asarray(obj, dtype=float)
+    except (TypeError, ValueError):
+        out.cls('solution:unjudged-type:%s' % type(obj).__name__)
+        return 0
+    g = np.asarray(got, dtype=float)
+    if g.shape != want.shape or not np.array_equal(g, want, equal_nan=True):
+        out.fail('solution-roundtrip@values', '%s: stored shape %s read shape %s%s' % (path, want.shape, g.shape,
+                 '' if g.shape != want.shape else ', max abs diff %.3e' % float(np.nanmax(np.abs(g - want)))))
+    return 1
+
+
+def check_retrieval_output(out, c, tmp):
+    """what a retrieval run stores: the solution dictionary returned by fit() and the optimizer's own description"""
+    import contextlib
+    import io
+    import random
+    import h5py
+    from taurex.output.hdf5 import HDF5Output
+    from taurex import OutputSize
+    from vlib.props import c09
+    from vlib import doubles
+    r = c['ret']
+    R = c09.Retrieval(out, r, tmp)
+    if not R.ok or not R.order:
+        out.cls('degenerate-world')
+        return False
+    size = {'heavy': OutputSize.heavy, 'light': OutputSize.light, 'lighter': OutputSize.lighter}[r['size']]
+    random.seed(12345)
+    with doubles.sampler_doubles(result=c09.deliver(R, tmp)):
+        with contextlib.redirect_stdout(io.StringIO()), np.errstate(all='ignore'):
+            solution = cut(out, 'fit@nestle', R.opt.fit, size)
+    fn = os.path.join(tmp, 'retrieval.h5')
+    with HDF5Output(fn) as o:
+        og = o.create_group('Output')
+        cut(out, 'store_dictionary@solution', og.store_dictionary, solution, 'Solutions')
+        cut(out, 'optimizer.write', R.opt.write, o)
+    out.applies('solution-roundtrip')
+    with h5py.File(fn, 'r') as f:
+        n = compare_obj(out, solution, f['Output']['Solutions'], 'Output/Solutions')
+        out.applies('optimizer-description')
+        if 'Optimizer' not in f:
+            out.fail('optimizer-description@missing', 'no Optimizer group (have %s)' % list(f.keys()))
+        else:
+            g = f['Optimizer']
+
+            def strs(ds):
+                return [x.decode() if isinstance(x, bytes) else str(x) for x in np.asarray(ds[()]).ravel()]
+            name = g['optimizer'][()]
+            name = name.decode() if isinstance(name, bytes) else name
+            lows = [p_.boundaries()[0] for p_ in R.opt.fitting_priors]
+            highs = [p_.boundaries()[1] for p_ in R.opt.fitting_priors]
+            if name != type(R.opt).__name__ or strs(g['fit_parameter_names']) != list(R.opt.fit_names) or \
+                    not np.array_equal(np.asarray(g['fit_boundary_low'][()], dtype=float), np.array(lows, dtype=float)) or \
+                    not np.array_equal(np.asarray(g['fit_boundary_high'][()], dtype=float), np.array(highs, dtype=float)):
+                out.fail('optimizer-description@values', 'stored optimizer name / fitted names / prior boundaries differ from the optimizer')
+            if R.derived and strs(g['derived_parameter_names']) != list(R.opt.derived_names):
+                out.fail('optimizer-description@derived', 'stored derived names differ')
+    return bool(n >= 20)
+
+
 def check(case):
     out = Outcome()
     part = case['part']
     out.cls('part:' + part)
     tmp = tempfile.mkdtemp(prefix='verif_c16_')
     try:
-        fn = {'dict': check_dict, 'spectrum': check_spectrum, 'model': check_model}[part]
+        fn = {'dict': check_dict, 'spectrum': check_spectrum, 'model': check_model, 'retrieval': check_retrieval_output}[part]
         out.nontrivial = bool(fn(out, case, tmp))
     except CutError:
         pass
